@@ -52,7 +52,41 @@ func DecodeMap(bytes []byte) (*AmmoConfig, error) {
 	if err != nil {
 		return nil, fmt.Errorf("%s, config.DecodeAndValidate, %w", op, err)
 	}
+	err = checkNoEmptyItems(&ammoCfg)
+	if err != nil {
+		return nil, fmt.Errorf("%s, %w", op, err)
+	}
 	return &ammoCfg, nil
+}
+
+// checkNoEmptyItems rejects list items left empty (`-` or null) where a plugin is expected:
+// they decode to nil interfaces, which the providers and guns would call methods on.
+func checkNoEmptyItems(cfg *AmmoConfig) error {
+	for i, source := range cfg.VariableSources {
+		if source == nil {
+			return fmt.Errorf("variable_sources[%d] is empty", i)
+		}
+	}
+	for _, req := range cfg.Requests {
+		for i, p := range req.Postprocessors {
+			if p == nil {
+				return fmt.Errorf("request %s: postprocessors[%d] is empty", req.Name, i)
+			}
+		}
+	}
+	for _, call := range cfg.Calls {
+		for i, p := range call.Preprocessors {
+			if p == nil {
+				return fmt.Errorf("call %s: preprocessors[%d] is empty", call.Name, i)
+			}
+		}
+		for i, p := range call.Postprocessors {
+			if p == nil {
+				return fmt.Errorf("call %s: postprocessors[%d] is empty", call.Name, i)
+			}
+		}
+	}
+	return nil
 }
 
 func ExtractVariableStorage(cfg *AmmoConfig) (*vs.SourceStorage, error) {
